@@ -1,5 +1,4 @@
-import SciVerif.Drive.Util
+import SciVerif.Drive.C07
 open Lean SciVerif.Drive
 
-/-- C07 model driver: not built yet. -/
-def main : IO Unit := serve (fun _ => throw "C07: no model yet")
+def main : IO Unit := serve SciVerif.C07.Drive.handle
